@@ -89,6 +89,9 @@ def check(ck: Checker) -> None:
     from .transfer_common import check_missing_readonly
 
     check_missing_readonly(ck, m, "C15.treelast")
+    from . import round10 as _r10
+
+    _r10.save_always_writes_dirs(ck, "C15.treelast")
     # -------------------------------------------------------------- statetx
     _batch(ck)
     for o in ck.obs:
